@@ -8,12 +8,14 @@ import (
 	"encoding/json"
 	"fmt"
 	"io"
+	"math"
 	"net/http"
 	"net/http/httptest"
 	"os"
 	"path/filepath"
 	"sort"
 	"strings"
+	"sync/atomic"
 	"syscall"
 	"testing"
 
@@ -64,6 +66,11 @@ func genWReport(r *verifrt.Rand, week string, xs []float64) *wreport {
 	rep := &wreport{Week: week, Config: "v1.2.3", X: r.Float() + 1e-12}
 	if len(xs) > 0 && r.Intn(5) == 0 {
 		rep.X = xs[r.Intn(len(xs))] // duplicate report ID
+	} else if len(xs) > 0 && r.Intn(6) == 0 {
+		// a different report ID that differs from an earlier one only in the last
+		// bits of the float64 (equal in any narrower representation)
+		x := xs[r.Intn(len(xs))]
+		rep.X = math.Float64frombits(math.Float64bits(x) + uint64(1+r.Intn(1<<uint(1+r.Intn(28)))))
 	}
 	np := r.Intn(4)
 	for i := 0; i < np; i++ {
@@ -104,7 +111,7 @@ type wenv struct {
 	ucfg    *tconfig.Config
 }
 
-func newWenv(base string) *wenv {
+func newWenv(base string, commit ...bool) *wenv {
 	root, _ := os.MkdirTemp(base, "w")
 	ctx := context.Background()
 	mk := func(n string) storage.BucketHandle {
@@ -115,6 +122,10 @@ func newWenv(base string) *wenv {
 		return b
 	}
 	e := &wenv{root: root, buckets: &storage.API{Upload: mk("uploaded"), Merge: mk("merged"), Chart: mk("charted")}}
+	if len(commit) > 0 && commit[0] {
+		e.buckets.Merge = &commitBucket{BucketHandle: e.buckets.Merge}
+		e.buckets.Chart = &commitBucket{BucketHandle: e.buckets.Chart}
+	}
 	cfgPath := filepath.Join(root, "config.json")
 	b, _ := json.Marshal(c13Cfg)
 	os.WriteFile(cfgPath, b, 0o644)
@@ -128,6 +139,94 @@ func newWenv(base string) *wenv {
 	mux.Handle("/chart/", handleChart(ucfg, e.buckets))
 	e.srv = httptest.NewServer(mux)
 	return e
+}
+
+// commitBucket gives a file-system bucket the commit semantics of an object
+// store: what is written becomes the object when the writer is closed, and
+// that close can fail (failNext closes do), in which case nothing is stored.
+type commitBucket struct {
+	storage.BucketHandle
+	failNext atomic.Int32
+}
+
+func (b *commitBucket) Object(name string) storage.ObjectHandle {
+	return &commitObject{ObjectHandle: b.BucketHandle.Object(name), b: b}
+}
+
+type commitObject struct {
+	storage.ObjectHandle
+	b *commitBucket
+}
+
+func (o *commitObject) NewWriter(ctx context.Context) (io.WriteCloser, error) {
+	return &commitWriter{o: o, ctx: ctx}, nil
+}
+
+type commitWriter struct {
+	o      *commitObject
+	ctx    context.Context
+	buf    bytes.Buffer
+	closed bool
+}
+
+func (w *commitWriter) Write(p []byte) (int, error) {
+	if w.closed {
+		return 0, os.ErrClosed
+	}
+	return w.buf.Write(p)
+}
+
+func (w *commitWriter) Close() error {
+	if w.closed {
+		return os.ErrClosed
+	}
+	w.closed = true
+	if w.o.b.failNext.Load() > 0 {
+		w.o.b.failNext.Add(-1)
+		return fmt.Errorf("verif: injected failure committing the object (nothing stored)")
+	}
+	iw, err := w.o.ObjectHandle.NewWriter(w.ctx)
+	if err != nil {
+		return err
+	}
+	if _, err := iw.Write(w.buf.Bytes()); err != nil {
+		iw.Close()
+		return err
+	}
+	return iw.Close()
+}
+
+// commitFaults: the merge and the chart of one day each meet a failing commit
+// once. A request that is answered 200 has produced its object; after a
+// failure the same request, repeated, succeeds.
+func commitFaults(res *verifrt.Result, e *wenv, ds string, stored []*wreport, rp map[string]any) bool {
+	mb := e.buckets.Merge.(*commitBucket)
+	cb := e.buckets.Chart.(*commitBucket)
+	mb.failNext.Store(1)
+	st, body := e.get("/merge/?date=" + ds)
+	mb.failNext.Store(0)
+	res.Hit("merge-commit-fails")
+	if st == 200 {
+		if _, err := os.Stat(filepath.Join(e.root, "merged", ds+".json")); err != nil {
+			res.Violate("merge-acknowledged-without-object", fmt.Sprintf("merge of %s answered 200 (%.100s) although committing the merged object failed: %v", ds, body, err), rp)
+			return false
+		}
+	}
+	if !mergeAndJudge(res, e, ds, stored, rp) {
+		return false
+	}
+	cb.failNext.Store(1)
+	st, body = e.get("/chart/?date=" + ds)
+	cb.failNext.Store(0)
+	res.Hit("chart-commit-fails")
+	if st == 200 {
+		if _, err := os.Stat(filepath.Join(e.root, "charted", ds+".json")); err != nil {
+			res.Violate("chart-acknowledged-without-object", fmt.Sprintf("chart of %s answered 200 (%.100s) although committing the chart object failed: %v", ds, body, err), rp)
+			return false
+		}
+	}
+	os.Remove(filepath.Join(e.root, "charted", ds+".json"))
+	return true
 }
 
 func (e *wenv) get(path string) (int, string) {
@@ -249,7 +348,7 @@ func TestVerifC13(t *testing.T) {
 		rp := verifrt.CaseReplay(i, map[string]any{"days": ndays, "reports": len(all), "first_day": dayStr(day0)})
 		var chartBytes [][]byte
 		for order := 0; order < 3; order++ {
-			e := newWenv(base)
+			e := newWenv(base, i%4 == 3 && order == 0)
 			perm := rnd.Perm(len(all))
 			if order == 0 {
 				for k := range perm {
@@ -280,6 +379,10 @@ func TestVerifC13(t *testing.T) {
 					ok = mergeAndJudge(res, e, ds, byDay[ds], rp)
 					restore()
 					res.Hit("merge-under-descriptor-limit")
+					continue
+				}
+				if i%4 == 3 && order == 0 && d == 0 {
+					ok = commitFaults(res, e, ds, byDay[ds], rp)
 					continue
 				}
 				ok = mergeAndJudge(res, e, ds, byDay[ds], rp)
@@ -485,7 +588,7 @@ func TestVerifC13(t *testing.T) {
 			res.Sample(map[string]any{"case": i, "days": ndays, "reports": len(all), "first_day": dayStr(day0)})
 		}
 	}
-	res.Require("stray-object-in-upload-bucket", "merge-under-descriptor-limit", "concurrent-chart-requests", "re-merge-after-replacement", "merged-line>64KiB", "duplicate-X", "missing-day", "sub-range", "semver-equal-versions")
+	res.Require("merge-commit-fails", "chart-commit-fails", "stray-object-in-upload-bucket", "merge-under-descriptor-limit", "concurrent-chart-requests", "re-merge-after-replacement", "merged-line>64KiB", "duplicate-X", "missing-day", "sub-range", "semver-equal-versions")
 	if err := res.Write(); err != nil {
 		t.Fatal(err)
 	}
